@@ -913,6 +913,10 @@ let node_case (line : string) : string =
       | "whereis" -> (match do_op (OWhereis (bytes_of_hex (next t))) with UPid p -> "pid " ^ term_str (TPid p) | _ -> "none")
       | "send" -> let p = pid_arg t in okerr (do_op (OSend (p, rd_term cmp_owned t)))
       | "sendname" -> let nm = bytes_of_hex (next t) in okerr (do_op (OSendName (nm, rd_term cmp_owned t)))
+      | "flood" -> let p = pid_arg t in let n = int_of_string (next t) in let msg = rd_term cmp_owned t in
+          let all = ref true in for _ = 1 to n do (match do_op (OSend (p, msg)) with UOk -> () | _ -> all := false) done;
+          if !all then "ok" else "err"
+      | "open" -> "-"
       | "link" -> let a = pid_arg t in let b = pid_arg t in okerr (do_op (OLink (a, b)))
       | "unlink" -> let a = pid_arg t in let b = pid_arg t in okerr (do_op (OUnlink (a, b)))
       | "monitor" -> let a = pid_arg t in let b = pid_arg t in
@@ -1006,6 +1010,33 @@ let node_case (line : string) : string =
       | x -> failwith ("bad node step " ^ x)) steps in
     String.concat " ;; " outs
 
+(* ---- domain gsrv: the gen_server dispatcher in the process loop (C18, last clause) ---- *)
+let gsrv_case (line : string) : string =
+  match split_on " ;; " line with
+  | [] -> failwith "empty"
+  | head :: steps ->
+      let mask = (match words head with ["gsrv"; m] -> m | _ -> failwith "bad gsrv head") in
+      let node = List.map (fun c -> n_of_int (Char.code c)) (List.init 3 (String.get "c@h")) in
+      let caller k : pidr = { pnode = node; pnum = n_of_int (100 + k); pserial = N0; pcreation = n_of_int 1; ploc = None } in
+      let ncall = String.length mask in
+      let live = List.filter_map (fun k -> if mask.[k] = '1' then Some (caller k) else None) (List.init ncall (fun k -> k)) in
+      let ms = List.map (fun st ->
+        match words st with
+        | "R" :: rest -> GReg (rd_term cmp_owned { l = rest })
+        | "X" :: rest -> GExit (rd_term cmp_owned { l = rest })
+        | ["O"] -> GOther
+        | _ -> failwith ("bad gsrv step " ^ st)) steps in
+      let r = demo_run live ms in
+      let ev = function
+        | EvCall (req, from) -> "C " ^ term_str req ^ " " ^ term_str (TPid from)
+        | EvCast req -> "K " ^ term_str req
+        | EvInfo b -> "I " ^ term_str b
+        | EvTerm t -> "T " ^ term_str t in
+      let join l = if l = [] then "-" else String.concat " , " l in
+      let boxes = List.init ncall (fun k ->
+        Printf.sprintf "c%d=%s" k (join (List.filter_map (fun (p, t) -> if pid_eqb p (caller k) then Some (term_str t) else None) r.g_sent))) in
+      String.concat " ;; " ([ (if r.g_alive then "alive=1" else "alive=0"); "log=" ^ join (List.map ev r.g_log) ] @ boxes)
+
 let () =
   let domain = if Array.length Sys.argv > 1 then Sys.argv.(1) else "" in
   let f = match domain with
@@ -1021,6 +1052,7 @@ let () =
     | "serde" -> serde_case
     | "conn" -> conn_case
     | "node" -> node_case
+    | "gsrv" -> gsrv_case
     | _ -> prerr_endline ("unknown domain " ^ domain); exit 2 in
   (try
     while true do
